@@ -280,3 +280,19 @@ def split_lines_fresh(c1: int, c2: int, keep: bool) -> bool:
 if TWIN == 'split-loses-fs':
     import parso.utils as _u
     _u._NON_LINE_BREAKS = tuple(x for x in _u._NON_LINE_BREAKS if x != '\x1c')
+
+
+def split_lines_fresh_native(i1: int, i2: int, keep: bool) -> bool:
+    """
+    require: 0 <= i1 < 6 and 0 <= i2 < 6
+    """
+    # the same law with the interpreter's own caches live (CrossHair neutralises functools caches while tracing):
+    # selectors realised, then native execution
+    try:
+        from crosshair.core import realize
+        from crosshair.tracers import NoTracing
+    except ImportError:
+        return split_lines_fresh(ord('a\n\r\x0c b'[i1]), ord('a\n\r\x0c b'[i2]), keep)
+    i1, i2, keep = realize(i1), realize(i2), realize(keep)
+    with NoTracing():
+        return split_lines_fresh(ord('a\n\r\x0c b'[i1]), ord('a\n\r\x0c b'[i2]), keep)
